@@ -568,7 +568,10 @@ def _decode_canon(c):
             return float(np.frombuffer(bytes.fromhex(c['f8']), dtype='<f8')[0])
         if isinstance(c, dict) and 'nd' in c:
             a = np.frombuffer(bytes.fromhex(c['b']), dtype=c['nd'])
-            return {'dtype': c['nd'], 'shape': c['shape'], 'first': a[:8].tolist()}
+            first = a[:8].tolist()
+            if a.dtype.kind == 'c':
+                first = [[x.real, x.imag] for x in first]
+            return {'dtype': c['nd'], 'shape': c['shape'], 'first': first}
         if isinstance(c, dict) and 'sp' in c:
             return {'sparse': c['sp'], 'dense': _decode_canon(c['dense'])}
         if isinstance(c, dict) and 'ra' in c:
